@@ -471,3 +471,73 @@ package clover
 //@   tags (C20)
 //@   modifies (heap*)
 //@   ensures ok-eight: (= (@ b v) (bv 8))
+
+// ---- fifth file ----
+//@ func paramMut
+//@   tags (C20)
+//@   ensures ok-inc: (= result (bvadd x (bv 1)))
+//@   ensures bad-same: (= result x)
+
+//@ func twoResults
+//@   tags (C20)
+//@   ensures ok-max: (and (bvsge result0 a) (bvsge result0 b) (= result1 (bvsgt a b)))
+//@   ensures bad-first: (= result0 a)
+
+//@ func zeroValue
+//@   tags (C20)
+//@   ensures ok-zero: (=> (not (mhas m (lit "x"))) (= result (bv 0)))
+//@   ensures ok-val: (=> (mhas m (lit "x")) (= result (mget m (lit "x"))))
+//@   ensures bad-has: (mhas m (lit "x"))
+
+//@ func nilMapWrite
+//@   tags (C20)
+//@   extra nullable (m)
+//@   modifies (heap*)
+
+//@ func reinterp
+//@   tags (C20)
+//@   ensures ok-bits: (= result u)
+//@   ensures bad-nonneg: (bvsge result (bv 0))
+
+//@ func minDiv
+//@   tags (C20)
+//@   ensures ok-neg: (= result (bvneg a))
+//@   ensures bad-pos: (=> (bvslt a (bv 0)) (bvsgt result (bv 0)))
+
+//@ func ifaceEq
+//@   tags (C20)
+//@   ensures bad-true: result
+//@   ensures ok-refl: (=> (and ((_ is vint) a) (= a b)) result)
+
+//@ func strOps
+//@   tags (C20)
+//@   use strings
+//@   ensures ok-cmp: (= result (< (strCmp a b) 0))
+//@   ensures bad-le: (= result (<= (strCmp a b) 0))
+
+//@ func strIdx
+//@   tags (C20)
+//@   use strings
+//@   ensures bad-zero: (= result #x00)
+
+//@ func derefCopy
+//@   tags (C20)
+//@   modifies (heap*)
+//@   ensures ok-copied: (=> (not (= p q)) (= (@ p a) (old (@ q a))))
+//@   ensures bad-copied: (= (@ p a) (old (@ q a)))
+//@   ensures bad-hundred: (= (@ p a) (bv 100))
+
+//@ func otherBox
+//@   tags (C20)
+//@   requires nn: (forall ((j (_ BitVec 64))) (! (=> (bvult j (len bs)) (not (= (idx bs j) null))) :pattern ((idx bs j))))
+//@   modifies (heap*)
+//@   ensures bad-three: (= result (bv 3))
+//@   ensures ok-one-or-three: (or (= result (bv 1)) (= result (bv 3)))
+//@   loop 0 invariant ok-v: (or (= (@ other v) (bv 1)) (= (@ other v) (bv 3)))
+
+//@ func swFall
+//@   tags (C20)
+//@   ensures ok-one: (=> (= x (bv 1)) (= result (bv 11)))
+//@   ensures ok-two: (=> (= x (bv 2)) (= result (bv 1)))
+//@   ensures ok-other: (=> (and (not (= x (bv 1))) (not (= x (bv 2)))) (= result (bvneg (bv 1))))
+//@   ensures bad-one: (=> (= x (bv 1)) (= result (bv 10)))
